@@ -1,0 +1,29 @@
+// Copyright 2026 Dolthub, Inc.
+//
+// Licensed under the Apache License, Version 2.0 (the "License");
+// you may not use this file except in compliance with the License.
+// You may obtain a copy of the License at
+//
+//     http://www.apache.org/licenses/LICENSE-2.0
+//
+// Unless required by applicable law or agreed to in writing, software
+// distributed under the License is distributed on an "AS IS" BASIS,
+// WITHOUT WARRANTIES OR CONDITIONS OF ANY KIND, either express or implied.
+// See the License for the specific language governing permissions and
+// limitations under the License.
+
+//go:build verif
+
+package encoding
+
+import "github.com/dolthub/dolt/go/store/hash"
+
+// Used by the /verif correspondence harness (C09). Add-only; compiled only with -tags verif.
+
+// VerifPurgeSchemaCache empties the process-wide cache of unmarshalled schemas, so that the next
+// UnmarshalSchemaAtAddr of any address reads the schema chunk from the store (as a fresh process would).
+func VerifPurgeSchemaCache() {
+	schemaCacheMu.Lock()
+	unmarshalledSchemaCache = map[hash.Hash]schCacheData{}
+	schemaCacheMu.Unlock()
+}
